@@ -10,6 +10,11 @@ from dataclasses import dataclass, field
 from .source import AnchorMissing
 
 VERIF = os.path.dirname(os.path.dirname(os.path.dirname(os.path.abspath(__file__))))
+# When the analysed tree is not /repo (trial runs against a scratch worktree with a seeded change),
+# evidence and replay files go to a scratch directory so that the committed evidence always
+# describes a run against /repo itself.
+_ALT = os.environ.get("VERIF_REPO", "/repo") != "/repo"
+OUTBASE = os.environ.get("VERIF_SCRATCH", "/tmp/verif-trial") if _ALT else VERIF
 HOLDS, VIOLATION, UNDECIDED = "HOLDS", "VIOLATION", "UNDECIDED"
 
 
@@ -93,9 +98,9 @@ def finish(ctx: Ctx, *, explanation: str, not_decided: list[str], trusted: list[
             print(f"HOLDS {r.rule} {r.where} {r.construct} :: {r.detail}")
     for r, k in listed:
         print(f"KNOWN-FINDING: property={ctx.prop} {k.get('id', '')} {k.get('what', r.detail)} [{r.rule} at {r.where}]")
-    os.makedirs(os.path.join(VERIF, "out"), exist_ok=True)
+    os.makedirs(os.path.join(OUTBASE, "out"), exist_ok=True)
     for i, (r, _) in enumerate(unlisted):
-        rp = os.path.join(VERIF, "out", f"{ctx.prop}-{r.rule}-{i}.json")
+        rp = os.path.join(OUTBASE, "out", f"{ctx.prop}-{r.rule}-{i}.json")
         with open(rp, "w") as f:
             json.dump({"property": ctx.prop, "rule": r.rule, "construct": r.construct,
                        "where": r.where, "detail": r.detail, "tier": ctx.tier}, f, indent=1)
@@ -138,8 +143,8 @@ def finish(ctx: Ctx, *, explanation: str, not_decided: list[str], trusted: list[
         "wall_s": round(time.time() - t0, 3),
         "violations": len(unlisted),
     }
-    os.makedirs(os.path.join(VERIF, "evidence"), exist_ok=True)
-    evp = os.path.join(VERIF, "evidence", f"{ctx.prop}.json")
+    os.makedirs(os.path.join(OUTBASE, "evidence"), exist_ok=True)
+    evp = os.path.join(OUTBASE, "evidence", f"{ctx.prop}.json")
     _validate(ev)
     with open(evp, "w") as f:
         json.dump(ev, f, indent=1)
